@@ -218,11 +218,25 @@ def case_nd(ctx, index, rng: random.Random):
     if d == 2 and shape[0] == shape[1]:
         shape[1] += 1
     pairs = [gen.pairs_from_edges(gen.edges(rng, k)) for k in shape]
+    specs = [np.array(p) for p in pairs]
+    if rng.random() < 0.3:
+        # an axis described by a rule (exponential / fixed-width binning object): the bins of a selection are the source's own bins,
+        # edge for edge - not the rule evaluated again from another starting point
+        from physt import binnings
+
+        j = rng.randrange(d)
+        if rng.random() < 0.6:
+            b_ = binnings.ExponentialBinning(log_min=rng.choice([0.0, -1.0, 0.3]), log_width=rng.choice([1 / 3, 0.1, 0.25, 1 / 7]), bin_count=max(2, shape[j] + 2))
+        else:
+            b_ = binnings.FixedWidthBinning(bin_width=rng.choice([0.1, 0.3, 1 / 3]), bin_count=max(2, shape[j] + 2), min=rng.choice([0.0, 0.7, -1.1]))
+        shape[j] = b_.bin_count
+        pairs[j] = np.asarray(b_.bins, dtype=float).tolist()
+        specs[j] = b_
     n = rng.randint(0, 60)
     rows = np.array([gen.data_for_bins(rng, p, n) for p in pairs], dtype=float).T.reshape(n, d)
     w = np.asarray([rng.randint(1, 16) / 4 for _ in range(n)], dtype=float)
     names = [f"n{i}" for i in range(d)]
-    h = physt.h(rows, [np.array(p) for p in pairs], weights=w, axis_names=names)
+    h = physt.h(rows, specs, weights=w, axis_names=names)
     if rng.random() < 0.5:
         _ = h.edges  # cached edge arrays of the source
     kind = rng.choice(["tuple", "tuple", "tuple", "select", "single", "too_many", "bad"])
